@@ -17,7 +17,7 @@ LEVEL = "model_checking"
 
 
 def validate(ctx, trace, tag):
-    r = vlib.tlc("BackendTrace.tla", "BackendTrace.cfg", workers=1, timeout=3000, env={"TRACE": trace},
+    r = vlib.tlc("BackendTrace.tla", "BackendTrace.cfg", workers=1, timeout=12000, env={"TRACE": trace},
                  metadir=os.path.join(ctx.out, "tv-" + tag), heap="6g")
     if r.error or r.violated or r.printed("TOOLERR"):
         open(os.path.join(ctx.out, "tv-%s.log" % tag), "w").write(r.out)
